@@ -13,6 +13,16 @@
 // Every reply is compared with Node.History / Node.Presence / Node.PresenceStats
 // called at the same virtual instant with the effective filter computed from the
 // request and the configured limit by the rule in the statement.
+//
+// Every fourth case is a "storm" case: Config.UseSingleFlight is on (4 of 5), the broker
+// and the presence manager are wrappers that answer History / Presence / PresenceStats
+// after a few virtual milliseconds (as remote ones would), and groups of 2-5 commands
+// are issued at the same instant on one channel with differing reverse / limit / since
+// (or on differing presence channels). Reads of a group overlap inside the broker, which
+// is what single flight coalesces; every reply must still be the node-level result for
+// ITS OWN effective filter. The reference of each member is a Node call made alone after
+// the group has finished (nothing in flight, so it cannot join another request's read),
+// with the full stream compared before and after the group.
 package c43
 
 import (
@@ -51,23 +61,101 @@ type world struct {
 
 	mu         sync.Mutex
 	delay      time.Duration // delay of the next handler invocation (0 = synchronous)
+	spawn      bool          // answer from a goroutine of its own even with delay 0 (storm groups)
 	handlerRan map[string]int
 	wg         sync.WaitGroup
+
+	// storm cases only
+	storm        bool
+	singleFlight bool
+	slow         *slowBroker
+	slowP        *slowPresence
+}
+
+// slowBroker delays every history read by a (virtual) round trip, as a remote broker
+// would: concurrent history requests then overlap inside Broker.History, which is what
+// Config.UseSingleFlight coalesces.
+type slowBroker struct {
+	*centrifuge.MemoryBroker // embedded as the concrete type so that Close stays reachable for Node.Shutdown
+	mu                       sync.Mutex
+	delay                    time.Duration
+	calls                    int
+}
+
+func (b *slowBroker) History(ch string, opts centrifuge.HistoryOptions) ([]*centrifuge.Publication, centrifuge.StreamPosition, error) {
+	b.mu.Lock()
+	b.calls++
+	d := b.delay
+	b.mu.Unlock()
+	if d > 0 {
+		time.Sleep(d) // no lock held
+	}
+	return b.MemoryBroker.History(ch, opts)
+}
+
+func (b *slowBroker) set(d time.Duration) int {
+	b.mu.Lock()
+	defer b.mu.Unlock()
+	b.delay = d
+	return b.calls
+}
+
+// slowPresence does the same for presence reads.
+type slowPresence struct {
+	*centrifuge.MemoryPresenceManager
+	mu    sync.Mutex
+	delay time.Duration
+	calls int
+}
+
+func (p *slowPresence) enter() {
+	p.mu.Lock()
+	p.calls++
+	d := p.delay
+	p.mu.Unlock()
+	if d > 0 {
+		time.Sleep(d)
+	}
+}
+
+func (p *slowPresence) Presence(ch string) (map[string]*centrifuge.ClientInfo, error) {
+	p.enter()
+	return p.MemoryPresenceManager.Presence(ch)
+}
+
+func (p *slowPresence) PresenceStats(ch string) (centrifuge.PresenceStats, error) {
+	p.enter()
+	return p.MemoryPresenceManager.PresenceStats(ch)
+}
+
+func (p *slowPresence) set(d time.Duration) int {
+	p.mu.Lock()
+	defer p.mu.Unlock()
+	p.delay = d
+	return p.calls
+}
+
+func (x *world) answerMode(d time.Duration, spawn bool) {
+	x.mu.Lock()
+	x.delay, x.spawn = d, spawn
+	x.mu.Unlock()
 }
 
 func (x *world) answer(kind string, f func()) {
 	x.mu.Lock()
 	x.handlerRan[kind]++
-	d := x.delay
+	d, spawn := x.delay, x.spawn
 	x.mu.Unlock()
-	if d == 0 {
+	if d == 0 && !spawn {
 		f()
 		return
 	}
 	x.wg.Add(1)
 	go func() {
 		defer x.wg.Done()
-		time.Sleep(d)
+		if d > 0 {
+			time.Sleep(d)
+		}
 		f()
 	}()
 }
@@ -92,92 +180,181 @@ type histCase struct {
 	ReplyN    int    `json:"reply_publications"`
 	ReplyErr  uint32 `json:"reply_error"`
 	Async     bool   `json:"async_handler"`
+	Group     string `json:"concurrent_group,omitempty"`
 }
 
-func (x *world) historyCommand(conn *kit.Conn, r *kit.Rand, chans []*chanState) {
-	c := x.c
-	var cs *chanState
-	ch := "c43:unknown"
-	if !r.Chance(1, 12) {
-		cs = kit.Pick(r, chans)
-		ch = cs.name
+// histAsk is one history command: the request, its effective filter, and (once known) the
+// node-level result it must equal.
+type histAsk struct {
+	conn      *kit.Conn
+	id        uint32
+	ch        string
+	cs        *chanState
+	req       *protocol.HistoryRequest
+	sinceDesc string
+	eff       centrifuge.HistoryFilter
+	async     bool
+	top       centrifuge.HistoryResult
+	topErr    error
+	want      centrifuge.HistoryResult
+	wantErr   error
+	// concurrent group (storm cases): all members including this one, and a description
+	group     []*histAsk
+	groupDesc string
+}
+
+var limitChoices = []int{-5, -1, -1, 0, 0, 1, 1, 2, 3, 3, 4, 7, 1000}
+
+// genSince draws a since position relative to the current stream top.
+func genSince(r *kit.Rand, top centrifuge.HistoryResult, topErr error) (*protocol.StreamPosition, string) {
+	sp := &protocol.StreamPosition{}
+	sinceDesc := ""
+	switch r.Intn(8) {
+	case 0:
+		sp.Epoch = "bogus-epoch"
+		sinceDesc = "stale-epoch"
+	case 1:
+		sp.Epoch = ""
+		sinceDesc = "empty-epoch"
+	default:
+		if topErr == nil {
+			sp.Epoch = top.Epoch
+		}
+		sinceDesc = "current-epoch"
 	}
-	top, topErr := x.node.History(ch, centrifuge.WithLimit(0))
+	var maxOff uint64 = 3
+	if topErr == nil {
+		maxOff = top.Offset + 2
+	}
+	switch r.Intn(5) {
+	case 0:
+		sp.Offset = 0
+	case 1:
+		if topErr == nil {
+			sp.Offset = top.Offset
+		}
+	default:
+		sp.Offset = uint64(r.Intn(int(maxOff) + 1))
+	}
+	sinceDesc += fmt.Sprintf("@%d", sp.Offset)
+	return sp, sinceDesc
+}
+
+func genHistoryRequest(r *kit.Rand, ch string, top centrifuge.HistoryResult, topErr error) (*protocol.HistoryRequest, string) {
 	req := &protocol.HistoryRequest{Channel: ch}
-	req.Limit = int32(kit.Pick(r, []int{-5, -1, -1, 0, 0, 1, 1, 2, 3, 3, 4, 7, 1000}))
+	req.Limit = int32(kit.Pick(r, limitChoices))
 	req.Reverse = r.Chance(2, 5)
 	sinceDesc := "nil"
 	if r.Chance(3, 5) {
-		sp := &protocol.StreamPosition{}
-		switch r.Intn(8) {
-		case 0:
-			sp.Epoch = "bogus-epoch"
-			sinceDesc = "stale-epoch"
-		case 1:
-			sp.Epoch = ""
-			sinceDesc = "empty-epoch"
-		default:
-			if topErr == nil {
-				sp.Epoch = top.Epoch
-			}
-			sinceDesc = "current-epoch"
-		}
-		var maxOff uint64 = 3
-		if topErr == nil {
-			maxOff = top.Offset + 2
-		}
-		switch r.Intn(5) {
-		case 0:
-			sp.Offset = 0
-		case 1:
-			if topErr == nil {
-				sp.Offset = top.Offset
-			}
-		default:
-			sp.Offset = uint64(r.Intn(int(maxOff) + 1))
-		}
-		sinceDesc += fmt.Sprintf("@%d", sp.Offset)
-		req.Since = sp
+		req.Since, sinceDesc = genSince(r, top, topErr)
 	}
-	// effective filter, from the statement: the configured limit caps the request
+	return req, sinceDesc
+}
+
+// effective filter, from the statement: the configured limit caps the request
+func (x *world) effective(req *protocol.HistoryRequest) centrifuge.HistoryFilter {
 	eff := centrifuge.HistoryFilter{Limit: int(req.Limit), Reverse: req.Reverse}
 	if req.Since != nil {
 		eff.Since = &centrifuge.StreamPosition{Offset: req.Since.Offset, Epoch: req.Since.Epoch}
 	}
 	if x.H > 0 && (eff.Limit < 0 || eff.Limit > x.H) {
 		eff.Limit = x.H
-		c.Count("history_limit_clamped", 1)
+		x.c.Count("history_limit_clamped", 1)
 	}
-	async := r.Chance(1, 3)
+	return eff
+}
+
+func effKey(f centrifuge.HistoryFilter) string {
+	s := "nil"
+	if f.Since != nil {
+		s = fmt.Sprintf("%d/%s", f.Since.Offset, f.Since.Epoch)
+	}
+	return fmt.Sprintf("limit=%d reverse=%v since=%s", f.Limit, f.Reverse, s)
+}
+
+func sinceKey(f centrifuge.HistoryFilter) string {
+	if f.Since == nil {
+		return "nil"
+	}
+	return fmt.Sprintf("%d/%s", f.Since.Offset, f.Since.Epoch)
+}
+
+func (x *world) historyCommand(conn *kit.Conn, r *kit.Rand, chans []*chanState) {
+	var cs *chanState
+	ch := "c43:unknown"
+	if !r.Chance(1, 12) {
+		cs = kit.Pick(r, chans)
+		ch = cs.name
+	}
+	a := &histAsk{conn: conn, ch: ch, cs: cs}
+	a.top, a.topErr = x.node.History(ch, centrifuge.WithLimit(0))
+	a.req, a.sinceDesc = genHistoryRequest(r, ch, a.top, a.topErr)
+	a.eff = x.effective(a.req)
+	a.async = r.Chance(1, 3)
 	d := time.Duration(0)
-	if async {
+	if a.async {
 		d = time.Duration(r.Range(1, 40)) * time.Millisecond
 	}
-	x.mu.Lock()
-	x.delay = d
-	x.mu.Unlock()
+	x.answerMode(d, false)
 
-	id := conn.NextID()
-	conn.Do(&protocol.Command{Id: id, History: req})
+	a.id = conn.NextID()
+	conn.Do(&protocol.Command{Id: a.id, History: a.req})
 	if d > 0 {
 		time.Sleep(d)
 	}
 	synctest.Wait()
 	// node-level result at the same virtual instant
-	want, wantErr := x.node.History(ch, centrifuge.WithHistoryFilter(eff))
-	f, ok := conn.ReplyFor(id)
-	hc := histCase{Channel: ch, Limit: req.Limit, Reverse: req.Reverse, Since: sinceDesc, MaxLimit: x.H, Effective: eff.Limit, Async: async}
-	detail := func() any {
-		var wantOffs []uint64
-		for _, p := range want.Publications {
-			wantOffs = append(wantOffs, p.Offset)
+	a.want, a.wantErr = x.node.History(ch, centrifuge.WithHistoryFilter(a.eff))
+	x.judgeHistory(a)
+}
+
+// replyIs tells whether a decoded history reply is exactly the given node-level outcome.
+func replyIs(rep *protocol.Reply, want centrifuge.HistoryResult, wantErr error) bool {
+	if wantErr != nil {
+		return rep.Error != nil && rep.Error.Code == wantCode(wantErr)
+	}
+	if rep.Error != nil || rep.History == nil || len(rep.History.Publications) != len(want.Publications) {
+		return false
+	}
+	for i, p := range rep.History.Publications {
+		wp := want.Publications[i]
+		if p.Offset != wp.Offset || !bytes.Equal(p.Data, wp.Data) || fmt.Sprint(p.Tags) != fmt.Sprint(wp.Tags) {
+			return false
 		}
-		m := map[string]any{"request": hc, "node_level_offsets": wantOffs, "node_level_error": fmt.Sprint(wantErr), "node_level_position": fmt.Sprintf("%d/%s", want.Offset, want.Epoch)}
+	}
+	return rep.History.Offset == want.Offset && rep.History.Epoch == want.Epoch
+}
+
+func offsetsOf(pubs []*centrifuge.Publication) []uint64 {
+	var offs []uint64
+	for _, p := range pubs {
+		offs = append(offs, p.Offset)
+	}
+	return offs
+}
+
+// judgeHistory compares the reply of one history command with a.want / a.wantErr, the
+// node-level outcome for the command's own effective filter.
+func (x *world) judgeHistory(a *histAsk) {
+	c := x.c
+	conn, id, req, cs, ch, eff, sinceDesc := a.conn, a.id, a.req, a.cs, a.ch, a.eff, a.sinceDesc
+	want, wantErr, top, topErr := a.want, a.wantErr, a.top, a.topErr
+	f, ok := conn.ReplyFor(id)
+	hc := histCase{Channel: ch, Limit: req.Limit, Reverse: req.Reverse, Since: sinceDesc, MaxLimit: x.H, Effective: eff.Limit, Async: a.async, Group: a.groupDesc}
+	detail := func() any {
+		m := map[string]any{"request": hc, "node_level_offsets": offsetsOf(want.Publications), "node_level_error": fmt.Sprint(wantErr), "node_level_position": fmt.Sprintf("%d/%s", want.Offset, want.Epoch)}
 		if ok {
 			m["reply"] = string(f.Raw)
 		}
 		if cs != nil {
 			m["channel_history_size"], m["channel_history_ttl"], m["channel_published"] = cs.size, cs.ttl.String(), cs.n
+		}
+		if a.group != nil {
+			var others []map[string]any
+			for _, o := range a.group {
+				others = append(others, map[string]any{"id": o.id, "effective_filter": effKey(o.eff), "node_level_offsets": offsetsOf(o.want.Publications), "node_level_error": fmt.Sprint(o.wantErr), "this_request": o == a})
+			}
+			m["concurrent_group"], m["use_single_flight"] = others, x.singleFlight
 		}
 		return m
 	}
@@ -203,6 +380,9 @@ func (x *world) historyCommand(conn *kit.Conn, r *kit.Rand, chans []*chanState) 
 		hc.ReplyN = len(rep.History.Publications)
 	}
 	sig := fmt.Sprintf("hist|H%d|lim%s|rev%v|%s|err%d|n%d", x.H, limClass(req.Limit, x.H), req.Reverse, sinceClass(sinceDesc), hc.ReplyErr, bucket(hc.ReplyN))
+	if a.group != nil {
+		sig += "|concurrent"
+	}
 	c.Nontrivial(sig)
 	if c.Index < 40 {
 		c.Sample(hc)
@@ -215,6 +395,24 @@ func (x *world) historyCommand(conn *kit.Conn, r *kit.Rand, chans []*chanState) 
 	}
 	if x.H > 0 && hc.ReplyN == x.H {
 		c.Count("history_reply_at_configured_limit", 1)
+	}
+	// a member of a concurrent group answered with the outcome of another member's filter
+	// (the generic classes below report every other difference)
+	if a.group != nil && !replyIs(rep, want, wantErr) {
+		for _, o := range a.group {
+			if o != a && effKey(o.eff) != effKey(eff) && replyIs(rep, o.want, o.wantErr) {
+				var gotOffs []uint64
+				if rep.History != nil {
+					for _, p := range rep.History.Publications {
+						gotOffs = append(gotOffs, p.Offset)
+					}
+				}
+				c.Violation("c43-concurrent-history-request-answered-with-result-of-another-filter",
+					fmt.Sprintf("history request {%s} issued together with {%s} on %q got error %d / offsets %s, which is the node-level result of the other filter; its own is error %v / offsets %s",
+						effKey(eff), effKey(o.eff), ch, hc.ReplyErr, pubsString(gotOffs), wantErr, pubsString(offsetsOf(want.Publications))), detail())
+				return
+			}
+		}
 	}
 	// reverse since offset zero
 	if req.Reverse && req.Since != nil && req.Since.Offset == 0 {
@@ -282,6 +480,229 @@ func (x *world) historyCommand(conn *kit.Conn, r *kit.Rand, chans []*chanState) 
 	if cs != nil && cs.n > 0 && topErr == nil && top.Offset > 0 && len(want.Publications) == 0 && eff.Limit != 0 && eff.Since == nil {
 		c.Count("history_expired_or_removed_observed", 1)
 	}
+	if a.group != nil {
+		c.Count("storm_history_replies_equal_node_level", 1)
+	}
+}
+
+// offBoundary keeps a group of overlapping reads (at most ~40 virtual ms) away from the
+// whole-second instants at which the memory broker expires streams.
+func offBoundary() {
+	if time.Now().Nanosecond() > int(900*time.Millisecond) {
+		time.Sleep(150 * time.Millisecond)
+		synctest.Wait()
+	}
+}
+
+func snapshotKey(res centrifuge.HistoryResult, err error) string {
+	s := fmt.Sprintf("%v|%d/%s|", err, res.Offset, res.Epoch)
+	for _, p := range res.Publications {
+		s += fmt.Sprintf("%d:%s,", p.Offset, p.Data)
+	}
+	return s
+}
+
+func cloneHistReq(q *protocol.HistoryRequest) *protocol.HistoryRequest {
+	n := &protocol.HistoryRequest{Channel: q.Channel, Limit: q.Limit, Reverse: q.Reverse}
+	if q.Since != nil {
+		n.Since = &protocol.StreamPosition{Offset: q.Since.Offset, Epoch: q.Since.Epoch}
+	}
+	return n
+}
+
+// stormHistoryGroup issues 2-5 history commands for one channel at the same instant while
+// every broker read takes a round trip, and judges each reply against the node-level
+// result of its own effective filter.
+func (x *world) stormHistoryGroup(readers []*kit.Conn, r *kit.Rand, chans []*chanState) {
+	c := x.c
+	offBoundary()
+	var cs *chanState
+	ch := "c43:unknown"
+	if !r.Chance(1, 15) {
+		cs = kit.Pick(r, chans)
+		ch = cs.name
+	}
+	x.slow.set(0)
+	top, topErr := x.node.History(ch, centrifuge.WithLimit(0))
+	before, beforeErr := x.node.History(ch, centrifuge.WithLimit(centrifuge.NoLimit))
+
+	n := r.Range(2, 5)
+	pattern := kit.Pick(r, []string{"reverse-only", "reverse-only", "reverse-only", "same-since-mixed-reverse", "same-since-mixed-reverse", "mixed-limits", "mixed-limits", "mixed-since", "random", "random", "identical"})
+	base, baseDesc := genHistoryRequest(r, ch, top, topErr)
+	flip := r.Bool()
+	limPerm := r.Perm(len(limitChoices))
+	members := make([]*histAsk, n)
+	for i := range members {
+		q, desc := cloneHistReq(base), baseDesc
+		switch pattern {
+		case "reverse-only": // same limit, no since, differing only in reverse
+			q.Since, desc = nil, "nil"
+			if i == 0 && r.Chance(5, 6) && base.Limit == 0 {
+				base.Limit = int32(kit.Pick(r, []int{-1, 1, 2, 2, 3, 4, 7, 1000}))
+			}
+			q.Limit = base.Limit
+			q.Reverse = (i%2 == 1) != flip
+		case "same-since-mixed-reverse":
+			if i == 0 {
+				base.Since, baseDesc = genSince(r, top, topErr)
+				if base.Since.Offset == 0 && r.Chance(4, 5) {
+					base.Since.Offset = 1
+					baseDesc = baseDesc[:len(baseDesc)-1] + "1" // "...@0" -> "...@1"
+				}
+				if base.Limit == 0 && r.Chance(5, 6) {
+					base.Limit = int32(kit.Pick(r, []int{-1, 1, 2, 3, 7}))
+				}
+			}
+			q, desc = cloneHistReq(base), baseDesc
+			q.Reverse = (i%2 == 1) != flip
+		case "mixed-limits":
+			q.Limit = int32(limitChoices[limPerm[i]])
+		case "mixed-since":
+			if i > 0 || r.Bool() {
+				if r.Chance(1, 5) {
+					q.Since, desc = nil, "nil"
+				} else {
+					q.Since, desc = genSince(r, top, topErr)
+				}
+			}
+		case "random":
+			if i > 0 {
+				q, desc = genHistoryRequest(r, ch, top, topErr)
+			}
+		}
+		members[i] = &histAsk{ch: ch, cs: cs, req: q, sinceDesc: desc, top: top, topErr: topErr, groupDesc: pattern}
+	}
+	for _, m := range members {
+		m.eff = x.effective(m.req)
+		m.group = members
+	}
+
+	// who asks: one connection for all (handlers answer from goroutines of their own), several
+	// connections likewise, or one goroutine per connection with a synchronous handler
+	direct := n <= len(readers) && r.Chance(1, 3)
+	used := map[*kit.Conn]bool{}
+	if direct {
+		for i, p := range r.Perm(len(readers))[:n] {
+			members[i].conn = readers[p]
+		}
+	} else {
+		one := r.Chance(1, 3)
+		for _, m := range members {
+			m.conn = readers[0]
+			if !one {
+				m.conn = kit.Pick(r, readers)
+			}
+			m.async = true
+		}
+	}
+	for _, m := range members {
+		m.id = m.conn.NextID()
+		used[m.conn] = true
+	}
+	order := r.Perm(n) // the leader of a coalesced read is whoever gets there first: vary it
+	callsBefore := x.slow.set(time.Duration(r.Range(2, 30)) * time.Millisecond)
+	if direct {
+		x.answerMode(0, false)
+		var wg sync.WaitGroup
+		for _, i := range order {
+			m := members[i]
+			wg.Add(1)
+			go func() {
+				defer wg.Done()
+				m.conn.Do(&protocol.Command{Id: m.id, History: m.req}) // returns after the reply is written
+			}()
+		}
+		wg.Wait()
+	} else {
+		x.answerMode(time.Duration(kit.Pick(r, []int{0, 0, 1, 3, 5}))*time.Millisecond, true)
+		for _, i := range order {
+			m := members[i]
+			m.conn.Do(&protocol.Command{Id: m.id, History: m.req})
+		}
+		for _, m := range members {
+			m.conn.PollReply(m.id, 2*time.Second)
+		}
+		x.wg.Wait()
+		x.answerMode(0, false)
+	}
+	synctest.Wait()
+	reads := x.slow.set(0) - callsBefore
+
+	// the stream must not have changed while the group was in flight (nothing publishes,
+	// expiry ticks are avoided): then a node-level call now describes the instant of the reads
+	after, afterErr := x.node.History(ch, centrifuge.WithLimit(centrifuge.NoLimit))
+	if snapshotKey(before, beforeErr) != snapshotKey(after, afterErr) {
+		c.Count("storm_groups_skipped_stream_changed", 1)
+		return
+	}
+	// references: each alone, nothing else in flight, so none of them can join another read
+	for _, m := range members {
+		m.want, m.wantErr = x.node.History(ch, centrifuge.WithHistoryFilter(m.eff))
+	}
+	c.Count("storm_history_groups", 1)
+	c.Count("storm_history_commands", n)
+	if reads < n {
+		c.Count("storm_history_reads_coalesced", n-reads)
+	}
+	if direct {
+		c.Count("storm_groups_goroutine_per_connection", 1)
+	} else if len(used) == 1 {
+		c.Count("storm_groups_one_connection", 1)
+	} else {
+		c.Count("storm_groups_several_connections", 1)
+	}
+	// what the group really mixes (by effective filters)
+	var revOnly, revOnlyDistinct, sameSinceRev, limDiff, sinceDiff bool
+	distinct := map[string]bool{}
+	for i, a := range members {
+		distinct[effKey(a.eff)] = true
+		for _, b := range members[i+1:] {
+			sameSince := sinceKey(a.eff) == sinceKey(b.eff)
+			switch {
+			case sameSince && a.eff.Limit == b.eff.Limit && a.eff.Reverse != b.eff.Reverse && a.eff.Since == nil:
+				revOnly = true
+				if snapshotKey(a.want, a.wantErr) != snapshotKey(b.want, b.wantErr) {
+					revOnlyDistinct = true
+				}
+			case sameSince && a.eff.Limit == b.eff.Limit && a.eff.Reverse != b.eff.Reverse:
+				sameSinceRev = true
+			case sameSince && a.eff.Reverse == b.eff.Reverse && a.eff.Limit != b.eff.Limit:
+				limDiff = true
+			case !sameSince && a.eff.Reverse == b.eff.Reverse && a.eff.Limit == b.eff.Limit:
+				sinceDiff = true
+			}
+		}
+	}
+	for name, on := range map[string]bool{"storm_groups_differing_only_in_reverse_without_since": revOnly, "storm_groups_same_since_differing_reverse": sameSinceRev,
+		"storm_groups_differing_limit": limDiff, "storm_groups_differing_since": sinceDiff, "storm_groups_identical_requests": len(distinct) == 1} {
+		if on {
+			c.Count(name, 1)
+		}
+	}
+	if revOnlyDistinct && x.singleFlight {
+		// forward and reverse give different node-level results and single flight is on:
+		// a read shared between the two would be visible
+		c.Count("storm_single_flight_reverse_only_groups_with_distinguishable_results", 1)
+	}
+	if len(distinct) > 1 {
+		c.Count("storm_groups_mixed_filters", 1)
+		if x.singleFlight {
+			c.Count("storm_single_flight_groups_mixed_filters", 1)
+		}
+	}
+	if c.Index < 40 {
+		var fs []string
+		for _, m := range members {
+			fs = append(fs, effKey(m.eff))
+		}
+		c.Sample(map[string]any{"concurrent_history_group": pattern, "channel": ch, "filters": fs, "broker_reads": reads, "use_single_flight": x.singleFlight, "goroutine_per_connection": direct})
+	}
+	for _, m := range members {
+		x.judgeHistory(m)
+		if c.Violated() {
+			return
+		}
+	}
 }
 
 func limClass(l int32, h int) string {
@@ -336,29 +757,75 @@ func protoInfoString(ci *protocol.ClientInfo) string {
 	return fmt.Sprintf("%s|%s|%s|%s", ci.Client, ci.User, ci.ConnInfo, ci.ChanInfo)
 }
 
+// presAsk is one presence / presence_stats command and (once known) the node-level
+// result for its channel.
+type presAsk struct {
+	conn  *kit.Conn
+	id    uint32
+	ch    string
+	stats bool
+	async bool
+	wantP centrifuge.PresenceResult
+	wantS centrifuge.PresenceStatsResult
+	group []*presAsk
+}
+
+func (a *presAsk) send() {
+	if a.stats {
+		a.conn.Do(&protocol.Command{Id: a.id, PresenceStats: &protocol.PresenceStatsRequest{Channel: a.ch}})
+	} else {
+		a.conn.Do(&protocol.Command{Id: a.id, Presence: &protocol.PresenceRequest{Channel: a.ch}})
+	}
+}
+
+// reference computes the node-level result for the command's channel; false = inconclusive.
+func (x *world) reference(a *presAsk) bool {
+	var err error
+	if a.stats {
+		a.wantS, err = x.node.PresenceStats(a.ch)
+	} else {
+		a.wantP, err = x.node.Presence(a.ch)
+	}
+	if err != nil {
+		x.c.Inconclusive(fmt.Sprintf("node-level presence call: %v", err))
+		return false
+	}
+	return true
+}
+
+func presenceStrings(m map[string]*centrifuge.ClientInfo) []string {
+	var ws []string
+	for k, v := range m {
+		ws = append(ws, k+"="+infoString(v))
+	}
+	sort.Strings(ws)
+	return ws
+}
+
 func (x *world) presenceCommand(conn *kit.Conn, r *kit.Rand, chans []string, stats bool) {
-	c := x.c
-	ch := kit.Pick(r, chans)
-	async := r.Chance(1, 3)
+	a := &presAsk{conn: conn, ch: kit.Pick(r, chans), stats: stats}
+	a.async = r.Chance(1, 3)
 	d := time.Duration(0)
-	if async {
+	if a.async {
 		d = time.Duration(r.Range(1, 40)) * time.Millisecond
 	}
-	x.mu.Lock()
-	x.delay = d
-	x.mu.Unlock()
-	id := conn.NextID()
-	if stats {
-		conn.Do(&protocol.Command{Id: id, PresenceStats: &protocol.PresenceStatsRequest{Channel: ch}})
-	} else {
-		conn.Do(&protocol.Command{Id: id, Presence: &protocol.PresenceRequest{Channel: ch}})
-	}
+	x.answerMode(d, false)
+	a.id = conn.NextID()
+	a.send()
 	if d > 0 {
 		time.Sleep(d)
 	}
 	synctest.Wait()
+	x.judgePresence(a, false)
+}
+
+// judgePresence compares one presence / presence_stats reply with the node-level result
+// for its channel (computed here unless the caller already did).
+func (x *world) judgePresence(a *presAsk, haveReference bool) {
+	c := x.c
+	ch, stats, async := a.ch, a.stats, a.async
 	c.Eval(1)
-	f, ok := conn.ReplyFor(id)
+	f, ok := a.conn.ReplyFor(a.id)
 	if !ok || f.DecodeErr != "" || f.Reply.Error != nil {
 		msg := "no reply"
 		if ok {
@@ -367,17 +834,40 @@ func (x *world) presenceCommand(conn *kit.Conn, r *kit.Rand, chans []string, sta
 		c.Violation("c43-presence-command-not-answered-with-result", fmt.Sprintf("presence command on %q: %s", ch, msg), nil)
 		return
 	}
-	if stats {
-		want, err := x.node.PresenceStats(ch)
-		if err != nil {
-			c.Inconclusive(fmt.Sprintf("Node.PresenceStats: %v", err))
-			return
+	if !haveReference && !x.reference(a) {
+		return
+	}
+	groupDetail := func(m map[string]any) map[string]any {
+		if a.group != nil {
+			var others []string
+			for _, o := range a.group {
+				others = append(others, fmt.Sprintf("id=%d channel=%s stats=%v", o.id, o.ch, o.stats))
+			}
+			m["concurrent_group"], m["use_single_flight"] = others, x.singleFlight
 		}
+		return m
+	}
+	conc := ""
+	if a.group != nil {
+		conc = "|concurrent"
+	}
+	if stats {
+		want := a.wantS
 		got := f.Reply.PresenceStats
 		c.Count("presence_stats_commands", 1)
 		if got == nil || int(got.NumClients) != want.NumClients || int(got.NumUsers) != want.NumUsers {
+			if got != nil {
+				for _, o := range a.group {
+					if o != a && o.stats && o.ch != ch && int(got.NumClients) == o.wantS.NumClients && int(got.NumUsers) == o.wantS.NumUsers {
+						c.Violation("c43-concurrent-presence-stats-request-answered-with-result-of-another-channel",
+							fmt.Sprintf("presence_stats on %q issued together with one on %q got clients=%d users=%d, the node-level result of the other channel; its own is clients=%d users=%d", ch, o.ch, got.NumClients, got.NumUsers, want.NumClients, want.NumUsers),
+							groupDetail(map[string]any{"channel": ch, "reply": string(f.Raw)}))
+						return
+					}
+				}
+			}
 			c.Violation("c43-presence-stats-reply-differs-from-node-level-result",
-				fmt.Sprintf("presence_stats reply %v, Node.PresenceStats clients=%d users=%d", got, want.NumClients, want.NumUsers), map[string]any{"channel": ch, "reply": string(f.Raw)})
+				fmt.Sprintf("presence_stats reply %v, Node.PresenceStats clients=%d users=%d", got, want.NumClients, want.NumUsers), groupDetail(map[string]any{"channel": ch, "reply": string(f.Raw)}))
 			return
 		}
 		if want.NumClients > want.NumUsers {
@@ -386,36 +876,159 @@ func (x *world) presenceCommand(conn *kit.Conn, r *kit.Rand, chans []string, sta
 		if want.NumClients > 0 {
 			c.Count("presence_stats_nonempty", 1)
 		}
-		c.Nontrivial(fmt.Sprintf("pstats|c%d|u%d|async%v", want.NumClients, want.NumUsers, async))
+		if a.group != nil {
+			c.Count("storm_presence_replies_equal_node_level", 1)
+		}
+		c.Nontrivial(fmt.Sprintf("pstats|c%d|u%d|async%v%s", want.NumClients, want.NumUsers, async, conc))
 		return
 	}
-	want, err := x.node.Presence(ch)
-	if err != nil {
-		c.Inconclusive(fmt.Sprintf("Node.Presence: %v", err))
-		return
-	}
+	want := a.wantP
 	c.Count("presence_commands", 1)
 	got := f.Reply.Presence
-	var gs, ws []string
+	var gs []string
 	if got != nil {
 		for k, v := range got.Presence {
 			gs = append(gs, k+"="+protoInfoString(v))
 		}
 	}
-	for k, v := range want.Presence {
-		ws = append(ws, k+"="+infoString(v))
-	}
+	ws := presenceStrings(want.Presence)
 	sort.Strings(gs)
-	sort.Strings(ws)
 	if got == nil || fmt.Sprint(gs) != fmt.Sprint(ws) {
+		if got != nil {
+			for _, o := range a.group {
+				if o != a && !o.stats && o.ch != ch && fmt.Sprint(gs) == fmt.Sprint(presenceStrings(o.wantP.Presence)) {
+					c.Violation("c43-concurrent-presence-request-answered-with-result-of-another-channel",
+						fmt.Sprintf("presence on %q issued together with one on %q got the %d entries of the other channel; its own has %d", ch, o.ch, len(gs), len(ws)),
+						groupDetail(map[string]any{"channel": ch, "reply": gs, "node_level": ws}))
+					return
+				}
+			}
+		}
 		c.Violation("c43-presence-reply-differs-from-node-level-result",
-			fmt.Sprintf("presence reply has %d entries, Node.Presence %d", len(gs), len(ws)), map[string]any{"channel": ch, "reply": gs, "node_level": ws})
+			fmt.Sprintf("presence reply has %d entries, Node.Presence %d", len(gs), len(ws)), groupDetail(map[string]any{"channel": ch, "reply": gs, "node_level": ws}))
 		return
 	}
 	if len(ws) > 0 {
 		c.Count("presence_nonempty", 1)
 	}
-	c.Nontrivial(fmt.Sprintf("presence|n%d|async%v", len(ws), async))
+	if a.group != nil {
+		c.Count("storm_presence_replies_equal_node_level", 1)
+	}
+	c.Nontrivial(fmt.Sprintf("presence|n%d|async%v%s", len(ws), async, conc))
+}
+
+// stormPresenceGroup issues 2-5 presence / presence_stats commands at the same instant
+// (same or differing channels and kinds) while every presence read takes a round trip.
+func (x *world) stormPresenceGroup(readers []*kit.Conn, r *kit.Rand, chans []string) {
+	c := x.c
+	n := r.Range(2, 5)
+	pattern := kit.Pick(r, []string{"same", "mixed-channels", "mixed-channels", "mixed-kinds", "random"})
+	baseCh, baseStats := kit.Pick(r, chans), r.Bool()
+	members := make([]*presAsk, n)
+	for i := range members {
+		m := &presAsk{ch: baseCh, stats: baseStats}
+		switch pattern {
+		case "mixed-channels":
+			m.ch = chans[(i+r.Intn(2))%len(chans)]
+		case "mixed-kinds":
+			m.stats = (i%2 == 1) != baseStats
+		case "random":
+			m.ch, m.stats = kit.Pick(r, chans), r.Bool()
+		}
+		members[i] = m
+	}
+	direct := n <= len(readers) && r.Chance(1, 3)
+	used := map[*kit.Conn]bool{}
+	if direct {
+		for i, p := range r.Perm(len(readers))[:n] {
+			members[i].conn = readers[p]
+		}
+	} else {
+		one := r.Chance(1, 3)
+		for _, m := range members {
+			m.conn = readers[0]
+			if !one {
+				m.conn = kit.Pick(r, readers)
+			}
+			m.async = true
+		}
+	}
+	for _, m := range members {
+		m.id = m.conn.NextID()
+		m.group = members
+		used[m.conn] = true
+	}
+	order := r.Perm(n)
+	callsBefore := x.slowP.set(time.Duration(r.Range(2, 30)) * time.Millisecond)
+	if direct {
+		x.answerMode(0, false)
+		var wg sync.WaitGroup
+		for _, i := range order {
+			m := members[i]
+			wg.Add(1)
+			go func() {
+				defer wg.Done()
+				m.send()
+			}()
+		}
+		wg.Wait()
+	} else {
+		x.answerMode(time.Duration(kit.Pick(r, []int{0, 0, 1, 3, 5}))*time.Millisecond, true)
+		for _, i := range order {
+			members[i].send()
+		}
+		for _, m := range members {
+			m.conn.PollReply(m.id, 2*time.Second)
+		}
+		x.wg.Wait()
+		x.answerMode(0, false)
+	}
+	synctest.Wait()
+	reads := x.slowP.set(0) - callsBefore
+	// references: each alone, nothing in flight (presence membership does not change during a group)
+	for _, m := range members {
+		if !x.reference(m) {
+			return
+		}
+	}
+	c.Count("storm_presence_groups", 1)
+	c.Count("storm_presence_commands", n)
+	if reads < n {
+		c.Count("storm_presence_reads_coalesced", n-reads)
+	}
+	chs, kinds, distinguishable := map[string]bool{}, map[bool]bool{}, false
+	for i, a := range members {
+		chs[a.ch], kinds[a.stats] = true, true
+		for _, b := range members[i+1:] {
+			if a.stats == b.stats && a.ch != b.ch {
+				if a.stats && a.wantS != b.wantS || !a.stats && fmt.Sprint(presenceStrings(a.wantP.Presence)) != fmt.Sprint(presenceStrings(b.wantP.Presence)) {
+					distinguishable = true
+				}
+			}
+		}
+	}
+	if len(chs) > 1 {
+		c.Count("storm_presence_groups_differing_channels", 1)
+		if distinguishable && x.singleFlight {
+			c.Count("storm_single_flight_presence_groups_with_distinguishable_channels", 1)
+		}
+	}
+	if len(kinds) > 1 {
+		c.Count("storm_presence_groups_mixed_kinds", 1)
+	}
+	if direct {
+		c.Count("storm_groups_goroutine_per_connection", 1)
+	} else if len(used) == 1 {
+		c.Count("storm_groups_one_connection", 1)
+	} else {
+		c.Count("storm_groups_several_connections", 1)
+	}
+	for _, m := range members {
+		x.judgePresence(m, true)
+		if c.Violated() {
+			return
+		}
+	}
 }
 
 func runCase(c *kit.Case) {
@@ -427,8 +1040,29 @@ func runCase(c *kit.Case) {
 		ClientStaleCloseDelay:        time.Hour,
 		ClientPresenceUpdateInterval: time.Duration(r.Range(1, 4)) * time.Second,
 	}
+	// storm cases: slow broker / presence manager, single flight (mostly) on, groups of
+	// commands issued at the same instant
+	x.storm = c.Index%4 == 3
+	if x.storm {
+		x.singleFlight = r.Chance(4, 5)
+		cfg.UseSingleFlight = x.singleFlight
+	}
 	var users sync.Map // transport -> user
 	node, _ := w.NewNode(cfg, func(n *centrifuge.Node) {
+		if x.storm {
+			inner, err := centrifuge.NewMemoryBroker(n, centrifuge.MemoryBrokerConfig{})
+			if err != nil {
+				panic(err)
+			}
+			x.slow = &slowBroker{MemoryBroker: inner}
+			n.SetBroker(x.slow)
+			innerP, err := centrifuge.NewMemoryPresenceManager(n, centrifuge.MemoryPresenceManagerConfig{})
+			if err != nil {
+				panic(err)
+			}
+			x.slowP = &slowPresence{MemoryPresenceManager: innerP}
+			n.SetPresenceManager(x.slowP)
+		}
 		n.OnConnecting(func(_ context.Context, e centrifuge.ConnectEvent) (centrifuge.ConnectReply, error) {
 			u, _ := users.Load(e.Transport)
 			user, _ := u.(string)
@@ -502,12 +1136,29 @@ func runCase(c *kit.Case) {
 	if r.Bool() {
 		reader.Subscribe(&protocol.SubscribeRequest{Channel: presChans[0]})
 	}
+	// storm cases: up to four more connections that only send commands
+	readers := []*kit.Conn{reader}
+	if x.storm {
+		for i, n := 0, r.Range(1, 4); i < n; i++ {
+			rc := newConn(fmt.Sprintf("reader%d", i))
+			conns = append(conns, rc)
+			readers = append(readers, rc)
+		}
+	}
 	synctest.Wait()
 
 	steps := r.Range(8, 26)
 	for st := 0; st < steps && !c.Violated(); st++ {
 		if closed, _, _ := reader.T.Closed(); closed {
 			break
+		}
+		if x.storm && r.Chance(2, 5) {
+			if r.Chance(3, 4) {
+				x.stormHistoryGroup(readers, r, chans)
+			} else {
+				x.stormPresenceGroup(readers, r, presChans)
+			}
+			continue
 		}
 		switch v := r.Intn(20); {
 		case v < 9:
@@ -546,6 +1197,14 @@ func runCase(c *kit.Case) {
 		}
 	}
 	c.Count("config_limit_"+fmt.Sprint(x.H), 1)
+	if x.storm {
+		c.Count("storm_cases", 1)
+		if x.singleFlight {
+			c.Count("storm_cases_single_flight_on", 1)
+		} else {
+			c.Count("storm_cases_single_flight_off", 1)
+		}
+	}
 	x.wg.Wait()
 	for _, conn := range conns {
 		_ = conn.CloseFn()
@@ -564,17 +1223,30 @@ func TestC43(t *testing.T) {
 			"presence command; presence_stats command; 1-4 more publications (trims); clock advance 0.2-2.5 s (TTL expiry, presence refresh); RemoveHistory; a member unsubscribes or disconnects}. OnHistory/OnPresence/OnPresenceStats allow the request with an empty reply, synchronously or after 1-40 virtual ms. " +
 			"Oracle per command (one evaluation each), at the virtual instant of the reply: publications, offset and epoch equal Node.History(channel, WithHistoryFilter(effective)) where effective.limit = configured limit if that is > 0 and the requested limit is negative or larger, else the requested limit; " +
 			"never more publications than a configured limit > 0; reverse with since.offset == 0 gives error 107; a node-level error (e.g. stale epoch: unrecoverable position) gives the same error code; presence map (client, user, conn info, chan info) == Node.Presence; presence_stats == Node.PresenceStats. " +
-			"Non-trivial = every command; signature = configured limit x limit class x reverse x since class x error x size bucket (history), entry counts (presence).",
+			"Non-trivial = every command; signature = configured limit x limit class x reverse x since class x error x size bucket (history), entry counts (presence). " +
+			"Storm cases (every 4th case): Config.UseSingleFlight on in 4 of 5, broker and presence manager wrapped (embedding MemoryBroker / MemoryPresenceManager) so that History / Presence / PresenceStats take 2-30 virtual ms during a group, 1-4 extra command connections; " +
+			"40% of the steps are groups of 2-5 commands issued at the same instant: history on one channel with {same limit, no since, differing only in reverse | same since, differing reverse | differing limits | differing since | independent random requests | identical requests}, " +
+			"or presence / presence_stats on the same or differing channels and kinds; from one connection or several (handlers answer from goroutines of their own after 0-5 ms), or one goroutine per connection with a synchronous handler; issue order permuted. " +
+			"Every reply of a group is judged by the same oracle against the node-level result for ITS OWN effective filter / channel, obtained by a Node call made alone after the group (nothing in flight, so it cannot share another request's read), valid because the full stream (Node.History NoLimit) is identical before and after the group; " +
+			"a reply that equals the node-level result of another member's differing filter / channel is reported under its own class. Broker reads per group are counted (fewer reads than requests = coalesced).",
 		Assumptions: []string{
 			"HistoryMaxPublicationLimit == 0 means no configured limit (Config doc: 'By default, no limit used'): the request's own limit is the effective one",
 			"'the same virtual instant': all harness clock advances are whole milliseconds after an initial 0.5 ms offset, so they never coincide with the memory broker's whole-second expiry ticks; nothing publishes while a command is in flight",
 			"publications are compared by offset, data and tags",
+			"a Node.History / Node.Presence call made while no other call for the channel is in flight is the node-level result also with Config.UseSingleFlight (single flight only joins calls that overlap in time)",
+			"groups start at most 900 ms into a virtual second and last under 40 ms, so no expiry tick falls into them; a group whose full stream differs before/after is skipped and counted (storm_groups_skipped_stream_changed)",
 		},
 		Cases: map[string]int{"quick": 1600, "thorough": 20000},
 		RequireCounters: []string{"history_commands", "history_replies_equal_node_level", "history_replies_with_publications", "history_limit_clamped", "history_reply_at_configured_limit",
 			"history_reverse_since_zero", "history_node_level_error", "history_negative_limit", "history_reverse_multi", "history_expired_or_removed_observed",
 			"presence_commands", "presence_nonempty", "presence_stats_commands", "presence_stats_nonempty", "presence_stats_users_fewer_than_clients",
-			"clock_advances", "history_removed", "presence_membership_changes", "config_limit_0", "config_limit_1", "config_limit_3"},
+			"clock_advances", "history_removed", "presence_membership_changes", "config_limit_0", "config_limit_1", "config_limit_3",
+			"storm_cases", "storm_cases_single_flight_on", "storm_cases_single_flight_off", "storm_history_groups", "storm_history_commands", "storm_history_reads_coalesced", "storm_history_replies_equal_node_level",
+			"storm_groups_mixed_filters", "storm_single_flight_groups_mixed_filters", "storm_groups_differing_only_in_reverse_without_since", "storm_single_flight_reverse_only_groups_with_distinguishable_results",
+			"storm_groups_same_since_differing_reverse", "storm_groups_differing_limit", "storm_groups_differing_since", "storm_groups_identical_requests",
+			"storm_groups_one_connection", "storm_groups_several_connections", "storm_groups_goroutine_per_connection",
+			"storm_presence_groups", "storm_presence_commands", "storm_presence_reads_coalesced", "storm_presence_replies_equal_node_level", "storm_presence_groups_differing_channels",
+			"storm_single_flight_presence_groups_with_distinguishable_channels", "storm_presence_groups_mixed_kinds"},
 		Run: runCase,
 	})
 }
